@@ -206,7 +206,7 @@ theorem printDepth_reentrant_chain (c : Cfg) (k : Kind) (hk : printReenters c k 
       have hih := ih f (by omega) (by omega)
       have hs := chain_sons k hkl n (i + 1) (by omega) hi
       cases k <;> simp [printReenters] at hk <;>
-        (simp only [printDepth, printLimit, hkind, hs, printReenters, hk, if_true,
+        (simp only [printDepth, printLimit, hkind, hs, printReenters, hk,
           List.map_cons, List.map_nil, maxL, Nat.add_sub_cancel, hih]
          simp
          omega)
